@@ -1,5 +1,6 @@
 """Shared run loop of the engine properties: run a case with monitors, count what was observed, evaluate."""
 import hashlib
+import os
 import random
 
 from . import oracles as O
@@ -9,12 +10,14 @@ from . import workload as W
 
 
 def run_one(case, acc, evaluate, monitors_factory=None, sim_kwargs=None, extra_rounds=0, pre=None, qcap=S.QCAP,
-            count=True):
+            count=True, on_crash=None):
     """evaluate(case, obs, sim, monitors) -> list of problems.  Returns problems, or None on harness error."""
     monitors = list(monitors_factory()) if monitors_factory else []
+    if os.environ.get("VERIF_TRACE"):
+        monitors = monitors + [O.Tracer()]
     kw = dict(sim_kwargs or {})
     kw.setdefault("rng", random.Random(case.get("sim_seed", 0)))
-    obs, sim = R.run_case(case, monitors=monitors, sim_kwargs=kw, keep_sim=True, pre=pre, qcap=qcap)
+    obs, sim = R.run_case(case, monitors=monitors, sim_kwargs=kw, keep_sim=True, pre=pre, qcap=qcap, on_crash=on_crash)
     try:
         if count:
             acc.evaluations += 1
